@@ -89,13 +89,15 @@ theorem isRecordOf_lastBytes {r : Bytes} {name ext : Str} {kind flag size : Nat}
 
 /-- **what a create/add report announces for a stored file is what a later listing prints for it**: every announcement
     `(k, ev)` of the batch has, on side `k` of the image the batch leaves, a live entry in a slot that held nothing before
-    whose listing event — the size and the block count `--list` / `--extract` print, the length of its chain in the
-    allocation table — carries the announced size and the announced block count -/
+    whose sixteen entry bytes are those the tool writes for the *announced name and extension* (`IsRecordOf`) and whose
+    listing event — the size and the block count `--list` / `--extract` print, the length of its chain in the allocation table —
+    carries the announced size and the announced block count -/
 theorem batch_blocks_listed (w : Tape.World) (verbose : Bool) (img : Image) (srcs : List Str)
     (himg : ImgOk img) (hs : ∀ src ∈ srcs, CleanSrc src) :
     ∃ st, performCore w verbose img srcs = .ok st ∧ ImgOk st.img
       ∧ ∀ p ∈ storedOn 0 (batchEvents w srcs img), ∃ j bat own e, j < 112 ∧ SideInv (st.img.getD p.1 []) bat own
           ∧ imgFileAt img p.1 j = none ∧ entryAt (st.img.getD p.1 []) own j = some e
+          ∧ (∃ kind flag, IsRecordOf e.rec16 p.2.name p.2.ext kind flag p.2.bytes)
           ∧ (evOfEntry bat e).bytes = p.2.bytes ∧ (evOfEntry bat e).blocks = p.2.blocks ∧ (own j).length = p.2.blocks := by
   obtain ⟨st, hst, hok, hhon⟩ := batch_sections w verbose img srcs himg hs
   refine ⟨st, hst, hok, ?_⟩
@@ -105,7 +107,7 @@ theorem batch_blocks_listed (w : Tape.World) (verbose : Bool) (img : Image) (src
   unfold imgFileAt at hnew
   obtain ⟨e, he, her, hec, hlen⟩ := chain_length_of_record inv j hj r c hnew (isRecordOf_lastBytes hrec)
   obtain ⟨hb1, hb2, _, _⟩ := event_facts inv j hj e he
-  refine ⟨j, bat, own, e, hj, inv, hnone, he, ?_, ?_, ?_⟩
+  refine ⟨j, bat, own, e, hj, inv, hnone, he, ⟨kind, flag, by rw [her, hbytes]; exact hrec⟩, ?_, ?_, ?_⟩
   · rw [hb1, hec, hbytes]
   · rw [hb2, hlen, hblocks]
   · rw [hlen, hblocks]
